@@ -9,10 +9,14 @@ from fractions import Fraction
 import vlib
 from checks import arithcommon as A
 
-OBLIGATIONS_PLANNED = [
-    "C07/P_add_sound.v", "C07/P_mul_sound.v", "C07/P_pow_int_sound.v", "C07/P_div_neg_sub_sound.v", "C07/P_refuted.v", "C07/P_nonvacuous.v",
+OBLIGATIONS = [
+    "C07/P_add_sound.v",
+    "C07/P_mul_sound.v",
+    "C07/P_neg_sound.v",
+    "C07/P_denote_respects_eq.v",
+    "C07/P_nonvacuous.v",
 ]
-OBLIGATIONS = []
+REFUTATIONS = ['C07/P_refuted.v']
 PROOF_MODULES = []   # compiled by hand until listed in coq/_CoqProject (see the report)
 
 POINTS = [Fraction(3, 2), Fraction(-5, 3), Fraction(7, 4), Fraction(2, 7), Fraction(-1, 3), Fraction(11, 5), Fraction(-9, 4), Fraction(5, 7)]
@@ -99,7 +103,7 @@ def shape_class(recipe):
 
 def run(ctx):
     ctx.gate(["Expr", "C07"])
-    ctx.prove(PROOF_MODULES, OBLIGATIONS)
+    A.prove(ctx, OBLIGATIONS, REFUTATIONS)
     drv, model = A.build(ctx)
     q = ctx.tier == "quick"
     rng = ctx.rng
